@@ -34,6 +34,10 @@ type Case struct {
 	Incompat int    `json:"incompat"` // -1: compatible pair; else index of the node (DFS order) replaced
 	Repl     string `json:"repl,omitempty"`
 	Desc     string `json:"desc"`
+	// Hex2: a second value of the same type, converted afterwards into the
+	// destination of the first conversion once that one has been emptied
+	// (slices of scalars cut to length zero with their capacity kept, everything else zeroed)
+	Hex2 string `json:"hex2,omitempty"`
 }
 
 func typeOpts() gen.TypeOpts {
@@ -64,7 +68,38 @@ func genCase(t *rapid.T) Case {
 	if len(c.Desc) > 300 {
 		c.Desc = c.Desc[:300] + "..."
 	}
+	if c.Incompat < 0 && rapid.Bool().Draw(t, "second") {
+		c.Hex2 = hex.EncodeToString(ref.Encode(ty, gen.DrawValue(t, ty, vo)))
+	}
 	return c
+}
+
+// emptyKeepingCapacity turns a destination which has been used into one that
+// is empty again but still owns its storage: what a caller reusing a buffer
+// passes.
+func emptyKeepingCapacity(v reflect.Value) {
+	switch v.Kind() {
+	case reflect.Slice:
+		// only slices of scalars keep their storage: the stale elements behind
+		// the length are plain numbers or strings which any conversion must
+		// overwrite. (A stale map or struct behind the length would be merged
+		// into by the library, as encoding/json does; what that should yield
+		// is not something the property says.)
+		switch v.Type().Elem().Kind() {
+		case reflect.Slice, reflect.Map, reflect.Struct, reflect.Interface, reflect.Ptr:
+			v.Set(reflect.Zero(v.Type()))
+		default:
+			if !v.IsNil() {
+				v.SetLen(0)
+			}
+		}
+	case reflect.Map:
+		v.Set(reflect.Zero(v.Type()))
+	case reflect.Struct:
+		for i := 0; i < v.NumField(); i++ {
+			emptyKeepingCapacity(v.Field(i))
+		}
+	}
 }
 
 var signed = []reflect.Type{reflect.TypeOf(int8(0)), reflect.TypeOf(int16(0)), reflect.TypeOf(int32(0)), reflect.TypeOf(int64(0)), reflect.TypeOf(int(0))}
@@ -398,6 +433,28 @@ func checkCase(c Case) error {
 		return vt.Violationf(cls+":decodefrom-changed", "DecodeFrom(%v <- bytes of %v) of %s: %v", dn.typ, src.Type(), c.Desc, err)
 	}
 
+	if c.Hex2 != "" {
+		data2, _ := hex.DecodeString(c.Hex2)
+		v2, n2, err := ref.Decode(ty, data2)
+		if err != nil || n2 != len(data2) {
+			return vt.Violationf("C20:bad-case", "reference decode of the second value: %v", err)
+		}
+		src2 := bridge.ToGo(ty, v2, nil)
+		reached2 := false
+		want2 := expect(dn, ty, v2, &reached2)
+		emptyKeepingCapacity(dst.Elem())
+		err, p := convert(dst.Interface(), src2.Interface())
+		if p != nil {
+			return vt.Violationf(cls+":reused-destination-panic", "ConvertFrom(%v <- %v) into an emptied, previously used destination panicked: %v", dn.typ, src.Type(), p)
+		}
+		if err != nil {
+			return vt.Violationf(cls+":reused-destination-refused", "ConvertFrom(%v <- %v) into an emptied, previously used destination failed: %v", dn.typ, src.Type(), err)
+		}
+		if err := same(dst.Elem(), want2); err != nil {
+			return vt.Violationf(cls+":reused-destination", "ConvertFrom(%v <- %v) of %s into a destination used before (first value %s) and emptied since: %v\n got  %v\n want %v", dn.typ, src.Type(), ref.Render(v2), c.Desc, err, dst.Elem(), want2)
+		}
+		vt.Label("destination-reused")
+	}
 	multi := false
 	var walk func(t *ref.Type, v interface{})
 	walk = func(t *ref.Type, v interface{}) {
